@@ -469,6 +469,8 @@ func (o *ProjectOptions) LoadModel(ctx context.Context) (map[string]any, error) 
 	if err != nil {
 		return nil, err
 	}
+	// the project environment built by the options is what the model is interpolated against, as in LoadProject
+	configDetails.Environment = o.Environment
 
 	return loader.LoadModelWithContext(ctx, *configDetails, o.loadOptions...)
 }
